@@ -368,16 +368,18 @@ def apply_op_kw(cl, op):
     return apply_op(cl, op)
 
 
-def run_impl(cfg, ops, script, choices=(), replies=(), make_client=None, peer=None, reply_by_op=None, apply=None):
+def run_impl(cfg, ops, script, choices=(), replies=(), make_client=None, peer=None, reply_by_op=None, apply=None, on_block=None):
     """Run the real Client; returns (results, trace, final sid, unused script items, unused choices, world)."""
     from pymemcache.client.base import Client
     c = dict(DEFAULT_CFG)
     c.update(cfg)
     world = World(script, choices, replies, c["naddr"], peer)
+    world.on_block = on_block
     server, kw = client_kwargs(cfg, world)
     cl = make_client(server, kw) if make_client else Client(server, **kw)
     results = []
     world.bounds = []
+    world.unread = []
     world.reply_by_op = reply_by_op
     for i, op in enumerate(ops):
         world.current_op = i
@@ -387,6 +389,7 @@ def run_impl(cfg, ops, script, choices=(), replies=(), make_client=None, peer=No
             results.append(("e", core.exn_name(e)))
         sk = getattr(cl, "sock", None)
         world.bounds.append((len(world.trace), getattr(sk, "sid", None)))
+        world.unread.append((i, len(sk.avail) if hasattr(sk, "avail") else 0))
     sock = getattr(cl, "sock", None)
     if not hasattr(sock, "sid"):
         sock = None
